@@ -249,8 +249,44 @@ func checkVersionValidate(c *Ctx, vf *ssa.Function, rule string) {
 	for _, f := range []string{"name", "login", "email"} {
 		c.Check(findPred("util/text.SafeOneLine", f, false) != nil, rule, "version.Validate:SafeOneLine("+f+")", vpos, "fails when "+f+" is not single-line safe", f+" is not checked with text.SafeOneLine (or the polarity is inverted)")
 	}
-	en, el := findPred("util/text.Empty", "name", true), findPred("util/text.Empty", "login", true)
-	okBoth := en != nil && el != nil && (en.TrueBlock.Dominates(el.Call.Block()) || el.TrueBlock.Dominates(en.Call.Block()))
+	// Empty(name) && Empty(login) → error: the true edge of the first test leads to the second, whose true edge fails
+	emptyCall := func(field string) *ssa.Call {
+		for _, cl := range CallsNamed(vf, "util/text.Empty") {
+			if a := cl.Args(); len(a) == 1 && hasField(a[0], field) {
+				cv, _ := cl.Instr.(*ssa.Call)
+				return cv
+			}
+		}
+		return nil
+	}
+	conj := func(first, second *ssa.Call) bool {
+		if first == nil || second == nil {
+			return false
+		}
+		for _, u := range condUsers(first) {
+			te := 0
+			if u.Neg {
+				te = 1
+			}
+			tb := u.If.Block().Succs[te]
+			if tb != second.Block() {
+				continue
+			}
+			for _, u2 := range condUsers(second) {
+				e := errEdge(u2.If, defaultFail)
+				te2 := 0
+				if u2.Neg {
+					te2 = 1
+				}
+				if e == te2 {
+					return true
+				}
+			}
+		}
+		return false
+	}
+	en, el := emptyCall("name"), emptyCall("login")
+	okBoth := conj(en, el) || conj(el, en)
 	c.Check(okBoth, rule, "version.Validate:name-or-login", vpos, "fails iff name and login are both empty", "the 'either name or login' refusal is missing or is not a conjunction")
 	av := findPred("util/text.ValidUrl", "avatarURL", false)
 	c.Check(av != nil, rule, "version.Validate:avatar-url", vpos, "fails when a non-empty avatar URL is invalid", "avatar URL is not validated")
